@@ -22,7 +22,7 @@ import numpy as np
 
 from holopy.core.metadata import make_subset_data, dict_to_array
 from holopy.core.utils import ensure_array, ensure_listlike, ensure_scalar
-from holopy.core.holopy_object import HoloPyObject, found_by_name
+from holopy.core.holopy_object import HoloPyObject
 from holopy.core.errors import raise_fitting_api_error
 from holopy.scattering.errors import (MultisphereFailure, TmatrixFailure,
                                       InvalidScatterer, MissingParameter)
@@ -111,8 +111,8 @@ class Model(HoloPyObject):
                 item = list(item)
             yield key, item
         init = type(self).__init__.__code__
-        if ('calc_func' in init.co_varnames[:init.co_argcount]
-                and found_by_name(self.calc_func)):
+        if 'calc_func' in init.co_varnames[
+                :init.co_argcount + init.co_kwonlyargcount]:
             yield 'calc_func', self.calc_func
 
     @classmethod
